@@ -46,7 +46,10 @@ RULE = (
     "transmission of one message dropped: maybe_retry must raise within max_retries_per_message retries and must not forget the "
     "message earlier. (frames) generated frame lists (pickles of Syn/Ack/header/messages, raw bytes, wrong arity) through "
     "Listener._recv_one: raises, or returns exactly what [msg] | [Syn,msg] | [hdr,val] | [Syn,hdr,val] denotes; a repeated Syn "
-    "yields nothing. non-trivial = >=1 dropped data transmission and >=1 dropped or duplicated ack with traffic in both directions "
+    "yields nothing. A fifth of the sends repeat the previous content as a message of its own (equal payloads in flight). "
+    "(shutdown) the real Bridge.shutdown run as a coroutine against idealised executors under generated loss of the four kinds of "
+    "frame it exchanges: every executor must receive its ExecutorShutdown exactly once (re-sent while unacknowledged) or the call must "
+    "give up loudly. non-trivial = >=1 dropped data transmission and >=1 dropped or duplicated ack with traffic in both directions "
     "(loop), or any giveup/frames case with >=2 frames; distinct = fingerprint of the case and its decision log"
 )
 ASSUMPTIONS = [
